@@ -669,6 +669,42 @@ func (env *Env) call(x *CCall) Val {
 		n := *env
 		n.st = env.old
 		return n.eval(x.Args[0])
+	case "ival":
+		// ival(x): the payload of an interface value (the pointer, for pointer dynamic types)
+		v := env.eval(x.Args[0])
+		if v.S != sIface {
+			env.fail("ival of non-interface")
+		}
+		return Val{E: "(i_val " + v.E + ")", S: sInt, T: types.Typ[types.Int]}
+	case "closedtype":
+		// closedtype(x, I): the dynamic type of x is one of the types declared in this package that implement I
+		// (enumerated from go/types on every run)
+		if len(x.Args) != 2 {
+			env.fail("closedtype(x, Interface)")
+		}
+		v := env.eval(x.Args[0])
+		it := env.resolveType(x.Args[1].String())
+		iface, ok := it.Underlying().(*types.Interface)
+		if !ok || v.S != sIface {
+			env.fail("closedtype: need an interface value and an interface type")
+		}
+		var alts []string
+		for _, n := range env.pkg.Scope().Names() {
+			tn, ok := env.pkg.Scope().Lookup(n).(*types.TypeName)
+			if !ok {
+				continue
+			}
+			if _, isIface := tn.Type().Underlying().(*types.Interface); isIface {
+				continue
+			}
+			for _, t := range []types.Type{types.NewPointer(tn.Type()), tn.Type()} {
+				if types.Implements(t, iface) {
+					alts = append(alts, fmt.Sprintf("(= (i_tag %s) %d)", v.E, em.typeTag(t)))
+					break
+				}
+			}
+		}
+		return Val{E: or(alts...), S: sBool, T: types.Typ[types.Bool]}
 	case "athead":
 		// athead(k, e): the value of e when the head of loop #k of this function was last reached (start of the
 		// current iteration of that enclosing loop)
@@ -929,6 +965,9 @@ func (env *Env) specCall(sf *SpecFunc, argExprs []CExpr) Val {
 			}
 		}
 		return Val{E: app, S: em.sortOf(rt), T: rt}
+	}
+	if sf.Math {
+		return env.mathCall(sf, args, &tenv)
 	}
 	inner := &Env{ex: env.ex, st: env.st, old: env.old, vars: map[string]Val{}, fn: nil, pkg: spkg, bound: env.bound, where: env.where + " in " + sf.Name}
 	for i, p := range sf.Params {
